@@ -70,6 +70,8 @@ pub enum ModelEvaluatorError {
   DecisionTableWithoutOutputs,
   #[error("rule {0} of the decision table has {1} input entries and {2} output entries, expected {3} and {4}")]
   DecisionTableRuleArity(usize, usize, usize, usize, usize),
+  #[error("cyclic dependency, '{0}' depends on itself")]
+  CyclicDependency(String),
 }
 
 impl From<ModelEvaluatorError> for DmntkError {
@@ -144,4 +146,8 @@ pub fn err_read_lock_failed(reason: impl ToString) -> DmntkError {
 
 pub fn err_write_lock_failed(reason: impl ToString) -> DmntkError {
   ModelEvaluatorError::WriteLockFailed(reason.to_string()).into()
+}
+
+pub fn err_cyclic_dependency(s: &str) -> DmntkError {
+  ModelEvaluatorError::CyclicDependency(s.to_string()).into()
 }
